@@ -25,7 +25,7 @@ LEVEL_NOTE = ('Table values from fixed + seed-derived alphabets. A request withi
 RULE = ("cases: (interpolator, n_ap, spacing, n_models, table unit); executions: one call per (request set, request unit), one evaluation per returned cell; non-trivial = distinct "
         "(case, request set, unit) with n_ap >= 2")
 ASSUMPTIONS = ["tables strictly increasing in aperture with ratio >= 1.05", "finite value alphabets"]
-REQUIRED_CLASSES = ['error-in-other-unit', 'history-interpolate-after-change', 'on-knot', 'inside-segment', 'beyond-table', 'below-refused', 'single-aperture-repeated', 'other-unit', 'bare-numbers', 'mixture', 'single-element',
+REQUIRED_CLASSES = ['spectrum-of-100-wavelengths-or-more', 'table-with-a-non-finite-cell', 'error-in-other-unit', 'history-interpolate-after-change', 'on-knot', 'inside-segment', 'beyond-table', 'below-refused', 'single-aperture-repeated', 'other-unit', 'bare-numbers', 'mixture', 'single-element',
                     'variable-at-filter-wavelength', 'variable-above-table', 'variable-on-largest-knot', 'conv', 'sed', 'sed-variable']
 TIMEOUT = {'quick': 300, 'thorough': 1200}
 
@@ -44,6 +44,10 @@ def setup(tier, seed):
                 if n_ap in (1, 3, 4):
                     out.append({'what': 'hist', 'n_ap': n_ap, 'spacing': spacing, 'depth': 3 if tier == 'quick' else 4})
                 out.append({'what': 'sedvar', 'n_ap': n_ap, 'spacing': spacing, 'n_wav': max(n_wav, 3)})
+    # scale: spectra of 100 / 150 wavelengths (real model SEDs have 100-250), filters at wavelength indices beyond 64 and 127
+    for n_ap, spacing, n_wav in ((4, 'log', 100), (6, 'irregular', 150)) + (() if tier == 'quick' else ((8, 'log', 250), (3, 'irregular', 130))):
+        out.append({'what': 'sedvar', 'n_ap': n_ap, 'spacing': spacing, 'n_wav': n_wav})
+        out.append({'what': 'sed', 'n_ap': n_ap, 'spacing': spacing, 'n_wav': n_wav})
     return {'tier': tier, 'seed': seed, 'cases': out}
 
 
@@ -182,6 +186,28 @@ def _conv(ctx, case, rec):
                 bad = 'apertures of the result'
             if bad:
                 rec.violation('conv|value|%s' % sname.split('-')[0], sub, {'problem': bad, 'requested_au': req, 'table_au': ap})
+    # ---- one model was not computed out to the largest radius (its last cell is inf / NaN): requests that do not involve
+    # that radius still return the tabulated values and the interpolants of the finite neighbours, for every model
+    if n_ap >= 3 and n_models >= 2:
+        for badval in (np.inf, np.nan):
+            flux_b = flux.copy()
+            flux_b[1, -1] = badval
+            cfb = ConvolvedFluxes(wavelength=2.2 * u.micron, model_names=names.copy(), apertures=(ap * u.au).to(tunit), flux=flux_b * u.mJy, error=err * u.mJy)
+            req = list(ap[:-1]) + [0.5 * (ap[i] + ap[i + 1]) for i in range(n_ap - 2)]
+            sub = {'set': 'finite-part-of-a-table-with-one-%s-cell' % ('inf' if badval == np.inf else 'nan')}
+            try:
+                with np.errstate(all='ignore'):
+                    rb = cfb.interpolate((np.array(req) * u.au).to(tunit))
+            except Exception as e:
+                rec.violation('conv|exception|inside|table-unit', sub, {'type': type(e).__name__, 'msg': str(e)[:200]})
+                continue
+            rec.ev()
+            rec.trans()
+            rec.cls('table-with-a-non-finite-cell')
+            efb = fitref.interp_aperture(ap, flux, req)
+            gfb = np.asarray(rb.flux.to(u.mJy).value, float)
+            if gfb.shape != efb.shape or not np.allclose(gfb, efb, rtol=1e-9, atol=0):
+                rec.violation('conv|value|non-finite-cell-elsewhere', sub, {'problem': 'requests that do not involve the non-finite cell: got %r, expected %r' % (gfb[1], efb[1]), 'requested_au': req, 'table_au': ap})
     rec.trace()
     if n_ap == 3 and n_models == 3 and case['tunit'] == 'AU':
         rec.sample({'interpolator': 'ConvolvedFluxes.interpolate', 'table_au': ap, 'flux_model0': flux[0], 'request_sets': {k: v for k, v in _request_sets(ap).items()}})
@@ -253,7 +279,9 @@ def _sedvar(ctx, case, rec):
     n_ap, n_wav = case['n_ap'], case['n_wav']
     n_wav = max(n_wav, 4)
     ap, vals = _table(ctx['seed'] + 2, n_ap, case['spacing'], n_wav)
-    wav = (2.0 ** np.arange(n_wav))[::-1]
+    wav = (2.0 ** np.arange(n_wav))[::-1] if n_wav <= 40 else np.geomspace(0.1, 1000.0, n_wav)[::-1]
+    if n_wav >= 100:
+        rec.cls('spectrum-of-100-wavelengths-or-more')
     key = ('sedvar', n_ap, case['spacing'], n_wav)
     rec.state(key)
 
@@ -267,7 +295,7 @@ def _sedvar(ctx, case, rec):
         s.flux = vals.T * u.mJy
         s.error = vals.T * 0.1 * u.mJy
         return s
-    filt_sets = [[0, n_wav - 1], [1, 2], list(range(n_wav)), [n_wav - 1, 0, 2]]
+    filt_sets = [[0, n_wav - 1], [1, 2], list(range(n_wav)), [n_wav - 1, 0, 2]] + ([[70, 90, 64, 65, 63], [n_wav - 2, 5, n_wav // 2]] if n_wav >= 100 else [])
     ap_kinds = ['inside', 'knots', 'largest-knot', 'above', 'mixed']
     for fi, fw in enumerate(filt_sets):
         for kind in ap_kinds:
